@@ -612,7 +612,16 @@ func newBusHarness(prog *busProgram) *busHarness {
 				h.mu.Unlock()
 				// the panicking handler's frame has been unwound: its rid was popped; it is recorded by onHandler's defer
 				rid := h.lastPanicRid(g, st)
-				h.ctl.point(C("LPanicHandler", Nat(ev.(pider).pid()), Nat(rid)), true, h.noBind)
+				pid := ev.(pider).pid()
+				h.ctl.point(C("LPanicHandler", Nat(pid), Nat(rid)), true, h.noBind)
+				// the panic handler's own body ("retry the failed event"): only for events below the threshold, so
+				// that what it publishes (values above it) does not start another retry
+				h.mu.Lock()
+				v := h.pubVal[pid]
+				h.mu.Unlock()
+				if body, ok := prog.bodies[panicBody]; ok && v < panicRetryBelow {
+					h.runActs(body)
+				}
 			})
 			if useSetters {
 				late = append(late, func(b *eb.EventBus) { b.SetPanicHandler(ph) })
@@ -638,6 +647,9 @@ func newBusHarness(prog *busProgram) *busHarness {
 	}
 	return h
 }
+
+// body id and value threshold of the panic handler's body (Bus/BusModel.v: panic_body, panic_retry_below)
+const panicBody, panicRetryBelow = 90, 50
 
 // the rid of the handler whose panic is being reported: onHandler's deferred pop records it
 var lastPopped sync.Map // gid -> rid
